@@ -1,5 +1,6 @@
 mod c01;
 mod c02;
+mod c09;
 mod c18;
 mod genpkt;
 mod libconv;
@@ -31,6 +32,7 @@ fn main() {
             match args.get(2).map(|s| s.as_str()) {
                 Some("C01") => c01::run(t),
                 Some("C02") => c02::run(t),
+                Some("C09") => c09::run(t),
                 Some("C18") => c18::run(t),
                 other => {
                     eprintln!("unknown property {other:?}");
